@@ -6,9 +6,8 @@ CONSTANTS
   Lens = {0, 25}
   Cfgs <- CfgsQ
   Emit = FALSE
-  NeedCover = TRUE
-  NeedLead = FALSE
-INVARIANT ColumnsDisjoint
-INVARIANT HitsInside
+  NeedCover = FALSE
+  NeedLead = TRUE
+INVARIANT HoldsInside
 CONSTRAINT EmitScn
 CHECK_DEADLOCK FALSE
